@@ -584,6 +584,42 @@ class _ChainedFlag(ast.NodeTransformer):
         return node
 
 
+class _SliceInsert(ast.NodeTransformer):
+    """for a local LIST L (bound to a list display, list(..) or a list comprehension somewhere in the function):
+    `L[:0] = [x]` / `L[p:p] = [x]` is `L.insert(p, x)`, `L[len(L):] = X` is `L.extend(X)`"""
+
+    def visit_FunctionDef(self, fn):
+        lists = set()
+        for n in ast.walk(fn):
+            if isinstance(n, ast.Assign) and len(n.targets) == 1 and isinstance(n.targets[0], ast.Name) and \
+                    (isinstance(n.value, (ast.List, ast.ListComp)) or
+                     (isinstance(n.value, ast.Call) and isinstance(n.value.func, ast.Name) and n.value.func.id == 'list')):
+                lists.add(n.targets[0].id)
+        self.lists = lists
+        self.generic_visit(fn)
+        return fn
+
+    def visit_Assign(self, st):
+        if len(st.targets) == 1 and isinstance(st.targets[0], ast.Subscript) and isinstance(st.targets[0].value, ast.Name) and \
+                st.targets[0].value.id in getattr(self, 'lists', ()) and isinstance(st.targets[0].slice, ast.Slice) and \
+                st.targets[0].slice.step is None:
+            L, sl = st.targets[0].value, st.targets[0].slice
+            lo, hi = sl.lower, sl.upper
+            zero = lambda e: e is None or (isinstance(e, ast.Constant) and e.value == 0)
+            if isinstance(st.value, ast.List) and len(st.value.elts) == 1 and not isinstance(st.value.elts[0], ast.Starred) and \
+                    hi is not None and ((zero(lo) and zero(hi)) or (lo is not None and ast.dump(lo) == ast.dump(hi))):
+                pos = lo if lo is not None else ast.Constant(value=0)
+                call = ast.Call(func=ast.Attribute(value=ast.Name(id=L.id, ctx=ast.Load()), attr='insert', ctx=ast.Load()),
+                                args=[pos, st.value.elts[0]], keywords=[])
+                return ast.fix_missing_locations(ast.copy_location(ast.Expr(value=call), st))
+            if hi is None and isinstance(lo, ast.Call) and isinstance(lo.func, ast.Name) and lo.func.id == 'len' and len(lo.args) == 1 and \
+                    isinstance(lo.args[0], ast.Name) and lo.args[0].id == L.id:
+                call = ast.Call(func=ast.Attribute(value=ast.Name(id=L.id, ctx=ast.Load()), attr='extend', ctx=ast.Load()),
+                                args=[st.value], keywords=[])
+                return ast.fix_missing_locations(ast.copy_location(ast.Expr(value=call), st))
+        return st
+
+
 class _GuardContinue(ast.NodeTransformer):
     """in a loop body, `if C: continue` followed by the rest R of the body is `if not C: R`"""
 
@@ -810,6 +846,7 @@ def inline_project(trees, exports):
             for fn_ in ([st] if isinstance(st, ast.FunctionDef) else
                         [b for b in st.body if isinstance(b, ast.FunctionDef)] if isinstance(st, ast.ClassDef) else []):
                 resolve_bound_method_aliases(fn_)
+                _SliceInsert().visit(fn_)
                 _SplitTupleAssigns().visit(fn_)
                 _ReduceToLoop().visit(fn_)
                 _NormaliseIfs().visit(fn_)
